@@ -176,6 +176,7 @@ type c13Thread struct {
 	faults  int  // number of faults injected into this thread
 	before  []string
 	seen    bool // afterDone ran
+	lastAI  map[int]bool // kinds ActiveInformers reported to this thread the last time it asked
 }
 
 type c13Reg struct {
@@ -319,7 +320,17 @@ type c13Infs struct {
 
 func (i *c13Infs) ActiveInformers() []schema.GroupVersionKind {
 	i.r.park("AI", 0)
-	return i.InformerTrackingCache.ActiveInformers()
+	out := i.InformerTrackingCache.ActiveInformers()
+	if t := i.r.self(); t != nil {
+		m := map[int]bool{}
+		for _, gvk := range out {
+			m[c13KindOf(gvk)] = true
+		}
+		i.r.mu.Lock()
+		t.lastAI = m
+		i.r.mu.Unlock()
+	}
+	return out
 }
 
 func (i *c13Infs) GetInformer(ctx context.Context, obj client.Object, opts ...cache.InformerGetOption) (cache.Informer, error) {
@@ -817,9 +828,11 @@ func (r *c13Run) afterDone(t *c13Thread, ghost map[int]int) {
 				}
 			}
 			if !found {
-				// did this very call re-create the informer for an EARLIER entry of ws and then skip w?
+				// did this very call re-create the informer for an EARLIER entry of ws and then skip w,
+				// although the kind was not active when it asked? (otherwise the skip is D13's: the
+				// kind was reported active while the source's handler was dead)
 				earlier := false
-				if inf, ok := r.infs[w.G]; ok && inf.by == t.idx {
+				if inf, ok := r.infs[w.G]; ok && inf.by == t.idx && !t.lastAI[w.G] {
 					for _, w0 := range op.Ws {
 						if w0 == w {
 							break
